@@ -22,6 +22,7 @@ import numpy as np
 
 from gridrv import instrument
 from gridrv.oracles import numdiff as nd
+from gridrv.oracles import transforms_ref
 
 REL_W = 1e-9
 EPS32 = float(np.finfo(np.float32).eps)
@@ -232,6 +233,35 @@ def check_call(ctx, tf, old, new):
                 else:
                     ctx.check("weights-sign", subject, True)
                 ctx.hit("decided:weights-sign")
+
+        # ---- secondary Jacobian oracle: derivative of the DOCUMENTED map in 40-digit arithmetic (gridrv.oracles.transforms_ref)
+        # at the nodes nearest both ends and a few interior ones.  numdiff of the implemented map cannot resolve |J| better than
+        # ~eps_ld*|r|/(rho |J|): where rmin >> r - rmin that is the same order as a float64 cancellation in the library's deriv.
+        # Only used where the implemented map agrees with the documented one to 1e-12 (otherwise skipped: model mismatch).
+        if type(tf).__name__ != "InverseRTransform" and x.size:
+            order = np.argsort(x)
+            pick = np.unique(np.concatenate([order[:8], order[-8:], order[np.linspace(0, x.size - 1, 6).astype(int)]]))
+            pick = pick[~on_end[pick] & np.isfinite(x[pick])]
+            if pick.size:
+                Jm, okm = transforms_ref.mp_jacobian(tf, x[pick], rl[pick].astype(float))
+                ctx.count("secondary:nodes-without-reference", int((~okm).sum()))
+                if okm.any():
+                    aJm = np.abs(Jm)
+                    dd = _last_aux["dist"][pick]
+                    condm = 100 * np.finfo(float).eps * aJm * (1 + 10 * np.abs(x[pick]) / np.where(dd > 0, dd, np.inf))
+                    tolm = 1e-9 * aJm + condm
+                    if lowprec:
+                        tolm = tolm + EPS32 * (1e5 * aJm + 30 * noise64[pick] / np.finfo(float).eps)
+                    wp, nwp = w[pick], np.asarray(new.weights, dtype=float)[pick]
+                    use = okm & np.isfinite(wp) & np.isfinite(nwp) & (aJm > 0)
+                    if use.any():
+                        rat = np.where(use, np.abs(np.abs(nwp) - aJm * np.abs(wp)) / (tolm * np.abs(wp) + 1e-300), 0.0)
+                        rat[use & (wp == 0)] = np.where(nwp[use & (wp == 0)] == 0, 0.0, np.inf)
+                        i = int(np.argmax(rat))
+                        ctx.check("weights-magnitude-mpref", subject, float(rat[i]), 1.0, sig="|w_new|!=|J_documented||w_old|", detail={"x": float(x[pick][i]), "w_old": float(wp[i]), "w_new": float(nwp[i]), "J_documented": float(Jm[i]), "rel": float(abs(abs(nwp[i]) - aJm[i] * abs(wp[i])) / (aJm[i] * abs(wp[i]) + 1e-300))})
+                        ctx.hit("decided:weights-magnitude-mpref")
+                        van = use & (wp > 0) & (np.abs(nwp) < np.finfo(float).tiny) & (aJm * wp > 1e-280)
+                        ctx.check("weights-not-vanishing", subject + ":mpref", not bool(van.any()), sig="weight-zero-or-subnormal-where-|J|w>1e-280", detail={"n_vanished": int(van.sum())})
 
         # ---- cheap global guard: a positive weight never vanishes (exactly 0 or subnormal) where the map's Jacobian,
         # known to better than a factor 2, times the old weight is a comfortably representable number
